@@ -1,9 +1,32 @@
 package parser
 
-import "errors"
+import (
+	"context"
+	"errors"
+
+	goerrors "github.com/ajitpratap0/GoSQLX/pkg/errors"
+)
 
 // Sentinel errors for the parser package.
 var (
 	// ErrUnexpectedStatement indicates a statement type was not expected in context.
 	ErrUnexpectedStatement = errors.New("unexpected statement type")
 )
+
+// isPropagatedError reports whether err must reach the caller unchanged instead
+// of being re-described by an enclosing construct: context cancellation and
+// deadline errors (callers match them with errors.Is) and the recursion depth
+// limit error (callers rely on its dedicated code).
+func isPropagatedError(err error) bool {
+	if err == nil {
+		return false
+	}
+	if errors.Is(err, context.Canceled) || errors.Is(err, context.DeadlineExceeded) {
+		return true
+	}
+	var ge *goerrors.Error
+	if errors.As(err, &ge) && ge.Code == goerrors.ErrCodeRecursionDepthLimit {
+		return true
+	}
+	return false
+}
